@@ -1,0 +1,111 @@
+//go:build verif
+
+package act
+
+import (
+	"ergo.services/ergo/gen"
+)
+
+// Exported wrappers over the supervisor state machines, for the verification
+// harness only (build tag "verif"). They add no behaviour.
+
+type VerifSup struct {
+	b supBehavior
+}
+
+type VerifAction struct {
+	Do        int // 0 nothing, 1 start child, 2 terminate children, 3 terminate children (strategy), 4 terminate
+	SpecName  gen.Atom
+	SpecIndex int
+	Terminate []gen.PID
+	Reason    error
+	spec      supChildSpec
+}
+
+func verifAction(a supAction) VerifAction {
+	return VerifAction{
+		Do:        int(a.do),
+		SpecName:  a.spec.Name,
+		SpecIndex: a.spec.i,
+		Terminate: a.terminate,
+		Reason:    a.reason,
+		spec:      a.spec,
+	}
+}
+
+func VerifNewSup(t SupervisorType) *VerifSup {
+	switch t {
+	case SupervisorTypeOneForOne:
+		return &VerifSup{createSupOneForOne()}
+	case SupervisorTypeAllForOne, SupervisorTypeRestForOne:
+		return &VerifSup{createSupAllRestForOne()}
+	case SupervisorTypeSimpleOneForOne:
+		return &VerifSup{createSupSimpleOneForOne()}
+	}
+	return nil
+}
+
+func (v *VerifSup) Init(spec SupervisorSpec) (VerifAction, error) {
+	if spec.Restart.Intensity == 0 {
+		spec.Restart.Intensity = defaultRestartIntensity
+	}
+	if spec.Restart.Period == 0 {
+		spec.Restart.Period = defaultRestartPeriod
+	}
+	a, err := v.b.init(spec)
+	return verifAction(a), err
+}
+
+func (v *VerifSup) ChildStarted(a VerifAction, pid gen.PID) VerifAction {
+	return verifAction(v.b.childStarted(a.spec, pid))
+}
+
+func (v *VerifSup) ChildTerminated(name gen.Atom, pid gen.PID, reason error) VerifAction {
+	return verifAction(v.b.childTerminated(name, pid, reason))
+}
+
+func (v *VerifSup) ChildSpec(name gen.Atom) (VerifAction, error) {
+	a, err := v.b.childSpec(name)
+	return verifAction(a), err
+}
+
+func (v *VerifSup) ChildAddSpec(spec SupervisorChildSpec) (VerifAction, error) {
+	a, err := v.b.childAddSpec(spec)
+	return verifAction(a), err
+}
+
+func (v *VerifSup) ChildEnable(name gen.Atom) (VerifAction, error) {
+	a, err := v.b.childEnable(name)
+	return verifAction(a), err
+}
+
+func (v *VerifSup) ChildDisable(name gen.Atom) (VerifAction, error) {
+	a, err := v.b.childDisable(name)
+	return verifAction(a), err
+}
+
+func (v *VerifSup) Children() []SupervisorChild {
+	return v.b.children()
+}
+
+// AgeRestarts moves every recorded restart timestamp ms milliseconds into the
+// past, i.e. advances the clock as the restart-intensity window sees it.
+func (v *VerifSup) AgeRestarts(ms int64) {
+	var r []int64
+	switch s := v.b.(type) {
+	case *supOFO:
+		r = s.restarts
+	case *supARFO:
+		r = s.restarts
+	case *supSOFO:
+		r = s.restarts
+	}
+	for i := range r {
+		r[i] -= ms
+	}
+}
+
+// VerifCheckRestartIntensity exposes the sliding-window function.
+func VerifCheckRestartIntensity(restarts []int64, period int, intensity int) ([]int64, bool) {
+	return supCheckRestartIntensity(restarts, period, intensity)
+}
